@@ -17,7 +17,7 @@ RULE = (
     "Non-trivial = matrix is not the identity; distinct = distinct (object, matrix) digest."
 )
 BUDGET = {"quick": 12000, "thorough": 500000}
-TIME_CAP = {"quick": 70, "thorough": 1500}
+TIME_CAP = {"quick": 240, "thorough": 1500}
 ANCHORS = ["Point.__imul__", "Point.__mul__", "Matrix.point_in_matrix_space", "Move.__imul__", "Linear.__imul__", "QuadraticBezier.__imul__",
            "CubicBezier.__imul__", "Arc.__imul__", "Path.reify", "Transformable.__mul__", "Transformable.__imul__", "Transformable.__abs__",
            "Rect.segments", "_RoundShape.segments", "SimpleLine.segments", "_Polyshape.segments", "Subpath.__imul__", "PathSegment.__mul__"]
